@@ -1,4 +1,5 @@
 import Jwt.Lemmas.Policy
+import Jwt.Lemmas.PipelineSig
 /-!
 # C01 — no token is accepted without a valid signature by the configured key
 
@@ -96,5 +97,14 @@ def toyChecker : Checker := { (Checker.mk { key := some octKey, alg := .none, cl
 -- token "e30.e30.Wg": header and payload both decode to "{}", which the toy codec loads as {"alg":"HS256"}
 example : (verify toyEnv toyChecker (some [101, 51, 48, 46, 101, 51, 48, 46, 87, 103])).2 = 0 := by decide +kernel
 example : (verify toyEnv toyChecker (some [101, 51, 48, 46, 101, 51, 48, 46, 87, 119])).2 = 1 := by decide +kernel
+
+/-- **`jwt_verify_sig` is the source's.** The model reports a signature failure exactly when the `jwt_verify_sig`
+*generated* from `jwt.c`, fed with the model's quantities, writes its message or (public-key arm) the gate refused the key:
+an HS* token fails when the key is not an oct key or the recomputed MAC text differs; an RS*/PS*/ES*/EdDSA token when the
+gate refuses, the third segment does not decode, or the provider's verification fails; any other algorithm always. -/
+theorem C01_verify_sig_is_source (env : Env) (k : KeyItem) (alg : Alg) (msg sigB64 : Bytes) :
+    (verifySig env k alg msg sigB64).1.isSome =
+      ((verifySigGen env k alg msg sigB64).2 || (algIsPk alg && (checkKeyBits alg k).isSome)) :=
+  verifySig_generated env k alg msg sigB64
 
 end Jwt.Props.C01
